@@ -1184,7 +1184,6 @@ class World(object):
                 try:
                     import numpy as _np
                     ev_ = _np.linalg.eigvalsh((_np.asarray(G_, dtype=float) + _np.asarray(G_, dtype=float).T) / 2)
-                    out["gram_min_eig"] = float(ev_.min())
                     if ev_.size and ev_.min() < -1e-6 * (1.0 + abs(ev_.max())):
                         acc = False
                 except Exception:
